@@ -7,6 +7,7 @@ package main
 
 import (
 	"fmt"
+	"hash/crc32"
 	"regexp"
 	"sort"
 	"strconv"
@@ -62,7 +63,7 @@ func (e *env) dump(store string) map[string]string {
 			continue
 		}
 		var ls []string
-		for _, l := range c.Cmd("UID FETCH 1:* (FLAGS BODY.PEEK[HEADER.FIELDS (SUBJECT)])").Untagged {
+		for _, l := range c.Cmd("UID FETCH 1:* (FLAGS BODY.PEEK[HEADER.FIELDS (SUBJECT)] BODY.PEEK[TEXT])").Untagged {
 			if !strings.Contains(l, " FETCH (") {
 				continue
 			}
@@ -78,7 +79,12 @@ func (e *env) dump(store string) map[string]string {
 			if m := reSubj.FindStringSubmatch(l); m != nil {
 				s = m[1]
 			}
-			ls = append(ls, u+":"+s+":"+f)
+			// the body too: content of a store is what its messages say, not only which messages there are
+			body := ""
+			if i := strings.Index(l, "BODY[TEXT] "); i >= 0 {
+				body = fmt.Sprintf("%08x/%d", crc32.ChecksumIEEE([]byte(l[i:])), len(l)-i)
+			}
+			ls = append(ls, u+":"+s+":"+f+":"+body)
 		}
 		out[strings.TrimPrefix(n, prefix)] = strings.Join(ls, ";")
 	}
@@ -135,7 +141,7 @@ func gen(rng *hx.Rng, n int) []step {
 		case x < 90:
 			out = append(out, step{actor, "RENAME " + rng.Pick([]string{"common", "x", "INBOX"}) + " " + rng.Pick([]string{"y", "x", "Roles/sales@example.com/y"})})
 		case x < 95:
-			out = append(out, step{"admin", rng.Pick([]string{"unassign A", "assign A", "assign A", "deliver R", "deliver A", "deliver B", "relogin A"})})
+			out = append(out, step{"admin", rng.Pick([]string{"unassign A", "assign A", "assign A", "deliver R", "deliver A", "deliver B", "deliver AB", "relogin A"})})
 		case x < 97:
 			// a second LOGIN on the same connection, as the other user or as the same one
 			out = append(out, step{actor, "LOGIN " + rng.Pick([]string{"a@example.com", "b@example.com"}) + " pw"})
@@ -346,6 +352,11 @@ func runProg(rep *hx.Report, w *world.World, prog []step, pi int) {
 				deliver(ua, "A")
 			case "deliver B":
 				deliver(ub, "B")
+			case "deliver AB":
+				// one message for both: its large part is kept once in the shared blob table, for two stores
+				tokN++
+				tok := fmt.Sprintf("tok-AB-%d", tokN)
+				w.Deliver("s@example.org", []string{ua, ub}, "From: s@example.org\r\nTo: r@example.com\r\nSubject: "+tok+"\r\n\r\n"+strings.Repeat("shared text of "+tok+" kept out of line\r\n", 40))
 			case "relogin A":
 				sess["A"].c.Close()
 				sess["A"] = &session{c: w.Login(ua), user: ua, ident: "A"}
